@@ -414,6 +414,9 @@ REGISTRY["C15"]["engines"] = [engine_khist.run, engine_kcompose.run]
 # the composed DAG's compound-priority table (C06 / C07 for DAGs derived by compose)
 REGISTRY["C07"]["engines"] = list(REGISTRY["C07"]["engines"]) + [engine_kcompose.run]
 REGISTRY["C07"]["rule"] += " || compose() derivations: compound-priority table of the composed DAG vs Priority.v (K-compose)"
+for _p in ("C04", "C05", "C07"):
+    REGISTRY[_p]["engines"] = list(REGISTRY[_p]["engines"]) + [engine_kvalue.run_ids]
+    REGISTRY[_p]["rule"] += " || K-attrs: in generated describing functions (nested DAGs, reused functions) every recorded call carries the attributes its function was declared with"
 REGISTRY["C20"]["engines"] = list(REGISTRY["C20"]["engines"]) + [engine_kcompose.run]
 REGISTRY["C20"]["rule"] += " || composed DAGs called inside another DAG's describing function (K-compose)"
 REGISTRY["C06"]["engines"] = list(REGISTRY["C06"]["engines"]) + [engine_kcompose.run]
